@@ -151,7 +151,9 @@ func forwardRequest(client *http.Client, hostProxy http.Handler, request *utils.
 		log.Printf("Request %s: %s %s %v\n", request.RequestID, request.Contents.Method, request.Contents.Host, request.Contents.ContentLength)
 	}
 	if *forwardUserID {
-		httpRequest.Header.Add(utils.HeaderUserID, request.User)
+		// Use Set rather than Add so that any value supplied by the client
+		// is replaced by the one asserted by the proxy.
+		httpRequest.Header.Set(utils.HeaderUserID, request.User)
 	}
 	if *stripCredentials {
 		httpRequest.Header.Del(headerAuthorization)
